@@ -465,6 +465,96 @@ def pred_pattern(case, ctx):
 def pred_multipitch(case, ctx):
     return _c18.pred_metrics(case, ctx)
 
+# ================================================================== perturbed repository fixtures (realistic decimals, margin rule)
+
+_FIX = {}
+
+
+def _fixture(kind, i):
+    import os
+    from vlib.runner import REPO
+    key_ = (kind, i)
+    if key_ not in _FIX:
+        d = os.path.join(REPO, "tests", "data", kind)
+        out = []
+        for side in ("ref", "est"):
+            with open(os.path.join(d, "%s%02d.txt" % (side, i))) as f:
+                out.append([float(l.split()[0]) for l in f if l.strip() and not l.startswith("#")])
+        _FIX[key_] = out
+    return _FIX[key_]
+
+
+@st.composite
+def fixture_case(draw, kind="beat"):
+    i = draw(st.integers(0, 9 if kind == "beat" else 9))
+    start = draw(st.integers(0, 1000))      # position of the window inside the file, in 1/1000 of its usable span
+    length = draw(st.sampled_from([6.0, 10.0, 15.0, 25.0]))
+    c = draw(beat_case())
+    c.update({"kind": kind, "fixture": i, "start": start, "length": length,
+              "jitter_ms": [draw(st.integers(-40, 40)) for _ in range(60)], "drop": [draw(st.integers(0, 9)) == 0 for _ in range(60)],
+              "defaults": draw(st.booleans())})
+    c.pop("ref")
+    c.pop("est")
+    return c
+
+
+def _margin(ref, est, thr, eps=1e-7):
+    return any(abs(abs(a - b) - thr) < eps for a in ref for b in est)
+
+
+def pred_beat_fixture(case, ctx):
+    ref_all, est_all = _fixture(case["kind"], case["fixture"])
+    t_first = 5.0 if case["kind"] == "beat" else 0.0
+    span = max(0.0, max(ref_all[-1], est_all[-1]) - case["length"] - t_first)
+    lo = round(t_first + span * case["start"] / 1000.0, 2)
+    hi = lo + case["length"]
+    ref = [x for x in ref_all if lo <= x <= hi]
+    est0 = [x for x in est_all if lo <= x <= hi]
+    est = sorted(x + j / 1000.0 for x, j, d in zip(est0, case["jitter_ms"], case["drop"]) if not d)
+    if len(ref) < 2 or len(est) < 2 or len(set(ref)) < len(ref) or len(set(est)) < len(est):
+        ctx.skip("window holds fewer than 2 beats")
+        return False
+    if case["defaults"]:
+        case = dict(case, f_measure_threshold=0.07, cemgil_sigma=0.04, p_score_threshold=0.2, goto_threshold=0.35, goto_mu=0.2, goto_sigma=0.2,
+                    continuity_phase_threshold=0.175, continuity_period_threshold=0.175, bins=41)
+    r, e = _a(ref), _a(est)
+    thr = case["f_measure_threshold"]
+    nt = False
+    if case["kind"] == "onset":
+        if _margin(ref, est, 0.05):
+            ctx.skip("onset distance within 1e-7 of the window")
+            return False
+        f, p, rr = ctx.call(onset.f_measure, r, e, window=0.05)
+        P, R, Fm = om.prf_events(ref, est, 0.05)
+        _cmp("onset precision (fixture window)", p, P, {"fixture": case["fixture"], "start": lo})
+        _cmp("onset recall (fixture window)", rr, R, {"fixture": case["fixture"], "start": lo})
+        return 0 < P < 1 or 0 < R < 1
+    if not _margin(ref, est, thr):
+        f = ctx.call(beat.f_measure, r, e, f_measure_threshold=thr)
+        _cmp("beat.f_measure (fixture window)", f, ob.f_measure(ref, est, thr), case)
+        nt |= 0 < f < 1
+    else:
+        ctx.skip("beat distance within 1e-7 of the F-measure threshold")
+    c = ctx.call(beat.cemgil, r, e, cemgil_sigma=case["cemgil_sigma"])
+    o = ob.cemgil(ref, est, case["cemgil_sigma"])
+    _cmp("beat.cemgil (fixture window)", c[0], o[0], case)
+    _cmp("beat.cemgil best (fixture window)", c[1], o[1], case)
+    off = min(min(ref), min(est))
+    if any(0 < abs((x - off) * 100 - round((x - off) * 100)) < 1e-6 for x in ref + est):
+        ctx.skip("beat within 1e-8 s of a 10 ms quantisation edge")
+    else:
+        want = ob.p_score(ref, est, case["p_score_threshold"])
+        if want is not None:
+            _cmp("beat.p_score (fixture window)", ctx.call(beat.p_score, r, e, p_score_threshold=case["p_score_threshold"]), want, case)
+    gv = ctx.call(beat.goto, r, e, goto_threshold=case["goto_threshold"], goto_mu=case["goto_mu"], goto_sigma=case["goto_sigma"])
+    _cmp("beat.goto (fixture window)", gv, ob.goto(ref, est, case["goto_threshold"], case["goto_mu"], case["goto_sigma"]), case)
+    cv = ctx.call(beat.continuity, r, e, continuity_phase_threshold=case["continuity_phase_threshold"], continuity_period_threshold=case["continuity_period_threshold"])
+    oc = ob.continuity(ref, est, case["continuity_phase_threshold"], case["continuity_period_threshold"])
+    for nm, a, b in zip(["CMLc", "CMLt", "AMLc", "AMLt"], cv, oc):
+        _cmp("beat.continuity %s (fixture window)" % nm, a, b, case)
+    v = _info_gain(dict(case, ref=ref, est=est), ctx, "beat.information_gain (fixture window)")
+    return nt or _between(c[0], *cv) or (v is not None and 0 < v < 1)
+
 
 SUBPROPS = [
     SubProp("beat_f_cemgil_pscore", pred_beat_basic, strategy=beat_case, n=(1200, 30000), shards=(2, 8), floor=0.3,
@@ -475,6 +565,10 @@ SUBPROPS = [
             rule="NT = 0 < information gain < 1; deviations matching the known finding KF-06 exactly are attributed to it, anything else is a violation"),
     SubProp("beat_information_gain_shared_first_beat", pred_info_gain_clean, strategy=shared_first_beat_case, n=(1200, 30000), shards=(2, 8), floor=0.3,
             rule="both sequences start on the same beat so KF-06 cannot occur: clean oracle for the rest of the function"),
+    SubProp("beat_fixture_windows", pred_beat_fixture, strategy=lambda: fixture_case("beat"), n=(300, 6000), shards=(4, 8), floor=0.2,
+            rule="windows of 6-25 s cut from the repository's 10 beat fixture pairs, estimates jittered by +-40 ms and thinned; realistic decimals with the margin rule; NT = a score strictly between 0 and 1"),
+    SubProp("onset_fixture_windows", pred_beat_fixture, strategy=lambda: fixture_case("onset"), n=(200, 4000), shards=(2, 4), floor=0.1,
+            rule="same for the onset fixtures (window 0.05)"),
     SubProp("onset_f_measure", pred_onset, strategy=onset_case, n=(1200, 30000), shards=(1, 4), floor=0.3,
             rule="NT = 0 < P or R < 1, or an onset exactly on the window"),
     SubProp("boundary_detection_deviation", pred_boundary, strategy=boundary_case, n=(1200, 30000), shards=(2, 8), floor=0.2,
